@@ -106,3 +106,59 @@ Definition ha_grp_deliver (canon : bytes -> bytes) (st : ha_gstate) (passthrough
 (* what a member demands, as the muxer defines "configured" (user name set) *)
 Definition ha_member_creds (m : ha_gmember) : option (bytes * bytes) :=
   if ha_nonempty (gm_user m) then Some (gm_user m, gm_pass m) else None.
+
+(* ------------------------------------------------------------------------------------------ *)
+(* http load-balancing groups (server/group/http.go: HTTPGroupController.Register, HTTPGroup.Register, createConn).
+   The first member's route config (with ITS Username / Password) is added to the vhost router; a joiner is compared
+   with the group in group name, domain, location and routeByHTTPUser — not in Username / Password — and in the group
+   key.  Requests are checked by CheckAuth against the group's route; createConn hands them to the members in turn
+   ([chosen]: an oracle).  Member routes here have location "" (one location per group). *)
+(* [cmp]: whether the params-invalid condition also compares Username and Password (read from the source by translator
+   unit t7: gen/GenRouteSites.v http_group_compared; false at the pinned commit) *)
+Definition ha_hgrp_join_existing (cmp : bool) (g : ha_group) (m : ha_gmember) : ha_group * Z :=
+  if negb (bytes_eqb (rt_domain (g_route g)) (gm_domain m)) ||
+     negb (bytes_eqb (rt_by_user (g_route g)) (gm_by_user m)) ||
+     (cmp && (negb (bytes_eqb (rt_user (g_route g)) (gm_user m)) || negb (bytes_eqb (rt_pass (g_route g)) (gm_pass m))))
+  then (g, 1)
+  else if negb (bytes_eqb (g_key g) (gm_key m)) then (g, 2)
+  else ({| g_name := g_name g; g_key := g_key g; g_route := g_route g; g_members := g_members g ++ [m] |}, 0).
+
+Fixpoint ha_hgrp_join_in (cmp : bool) (st : ha_gstate) (m : ha_gmember) : option (ha_gstate * Z) :=
+  match st with
+  | [] => None
+  | g :: t =>
+      if bytes_eqb (g_name g) (gm_group m) then
+        let '(g', r) := ha_hgrp_join_existing cmp g m in Some (g' :: t, r)
+      else match ha_hgrp_join_in cmp t m with
+           | Some (t', r) => Some (g :: t', r)
+           | None => None
+           end
+  end.
+
+Definition ha_hgrp_join (cmp : bool) (st : ha_gstate) (m : ha_gmember) : ha_gstate * Z :=
+  match ha_hgrp_join_in cmp st m with
+  | Some x => x
+  | None =>
+      if ha_grp_conflict st m then (st, 3)
+      else (st ++ [ {| g_name := gm_group m; g_key := gm_key m; g_route := ha_route_of_member m; g_members := [m] |} ], 0)
+  end.
+
+Fixpoint ha_hgrp_run (cmp : bool) (st : ha_gstate) (ms : list ha_gmember) : ha_gstate * list Z :=
+  match ms with
+  | [] => (st, [])
+  | m :: t => let '(st1, r) := ha_hgrp_join cmp st m in let '(st2, rs) := ha_hgrp_run cmp st1 t in (st2, r :: rs)
+  end.
+
+Definition ha_hgrp_deliver (canon : bytes -> bytes) (st : ha_gstate) (rq : ha_req) (chosen : Z) : option ha_gmember :=
+  match ha_serve_http (ha_tbl_get (ha_grp_table st)) canon rq with
+  | OForward l =>
+      match find (fun g => ha_route_eqb (g_route g) l) st with
+      | Some g => find (fun m => gm_id m =? chosen) (g_members g)
+      | None => None
+      end
+  | _ => None
+  end.
+
+(* what an http proxy demands (CheckAuth: user or password set) *)
+Definition ha_hmember_creds (m : ha_gmember) : option (bytes * bytes) :=
+  if ha_nonempty (gm_user m) || ha_nonempty (gm_pass m) then Some (gm_user m, gm_pass m) else None.
